@@ -32,8 +32,8 @@ func init() {
 	Register(&Rule{
 		ID:    "R-POOL",
 		Doc:   "typestate per sync.Pool object x := P.Get(): after P.Put(x) no use of x or of memory loaded from it; nothing derived from x's memory flows to a return (copy-out); a released tokenizer stack is dropped from its owner",
-		Props: []string{"C09", "C10", "C17", "C03", "C06", "C01"},
-		Min:   map[string]int{"C09": 7, "C10": 2, "C17": 1, "C03": 1, "C06": 5, "C01": 5},
+		Props: []string{"C09", "C10", "C17", "C03", "C06", "C01", "C14"},
+		Min:   map[string]int{"C09": 7, "C10": 2, "C17": 1, "C03": 1, "C06": 5, "C01": 5, "C14": 5},
 		Run:   runPool,
 	})
 	Register(&Rule{
@@ -829,6 +829,9 @@ func runPool(c *core.Ctx) []core.Obligation {
 					continue
 				}
 				nput++
+				if _, deferred := p.at.(*ssa.Defer); deferred {
+					continue // runs at function exit: nothing in this function comes after it
+				}
 				after := reachableFrom(p.at.Block(), nil)
 				for _, blk := range fn.Blocks {
 					for _, in := range blk.Instrs {
@@ -888,10 +891,26 @@ func runPool(c *core.Ctx) []core.Obligation {
 			var ps []putSite
 			var anyClean ssa.Instruction
 			_ = anyClean
+			type putAt struct {
+				arg ssa.Value
+				at  ssa.Instruction
+			}
+			var sites []putAt
 			for _, p := range puts {
-				if _, isWrapper := p.at.(ssa.CallInstruction); !isWrapper {
+				if _, deferred := p.at.(*ssa.Defer); deferred {
+					// a deferred Put takes effect wherever the function runs its defers
+					for _, blk := range fn.Blocks {
+						for _, in := range blk.Instrs {
+							if rd, ok := in.(*ssa.RunDefers); ok && reachableFrom(p.at.Block(), nil)[blk] {
+								sites = append(sites, putAt{p.arg, rd})
+							}
+						}
+					}
 					continue
 				}
+				sites = append(sites, putAt{p.arg, p.at})
+			}
+			for _, p := range sites {
 				site := putSite{at: p.at}
 				for _, blk := range fn.Blocks {
 					for _, in := range blk.Instrs {
@@ -940,7 +959,7 @@ func runPool(c *core.Ctx) []core.Obligation {
 				props := props
 				if strings.HasPrefix(shortName(fn), "json.(encoder)") {
 					// a dirty scratch slice makes the sibling encoders panic on a stale element or emit extra members
-					props = append(append([]string{}, props...), "C06", "C01")
+					props = append(append([]string{}, props...), "C06", "C01", "C14")
 				}
 				for _, site := range ps {
 					key := "pool:scrub-before-put@" + shortName(fn)
